@@ -250,12 +250,12 @@ where
 
     /// Create a new `TcpConnecting` future.
     fn connecting(&self, mut addrs: SocketAddrs) -> TcpConnecting<'_> {
-        if self.config.happy_eyeballs_timeout.is_some() {
-            addrs.sort_preferred(IpVersion::from_binding(
-                self.config.local_address_ipv4,
-                self.config.local_address_ipv6,
-            ));
-        }
+        // The address-family preference follows from the local binding; it applies whether or
+        // not the happy eyeballs stagger is enabled.
+        addrs.sort_preferred(IpVersion::from_binding(
+            self.config.local_address_ipv4,
+            self.config.local_address_ipv6,
+        ));
 
         TcpConnecting::new(addrs, &self.config)
     }
